@@ -52,33 +52,56 @@ def has_title(tree: ast.Module) -> bool:
     return False
 
 
+# header forms of a function definition: the documentation generator must cope with every signature a documented
+# function may have ({n} name, {p} probe expression evaluated when the def statement is executed)
+DEF_FORMS = [
+    "def {n}(x={p}):",
+    'def {n}(a: int = 0, x: "list[int]" = {p}, *args: int, c: bool = False, **kwargs: object) -> tuple[int, int]:',
+    "def {n}(a=0, /, x={p}) -> int | None:",
+    '@__import__("functools").lru_cache(maxsize=None)\n'
+    'def {n}(x: __import__("typing").Optional[int] = {p}) -> __import__("sympy").Expr:',
+    'def {n}(x={p}, *, key: "Quantity" = None) -> "Quantity":',
+    'def {n}(x={p}) -> None:',
+]
+N_VARIANTS = len(DEF_FORMS)
+
+
 def materialise(kinds, variant: int = 0) -> str:
-    """Statement kinds -> source text whose observable statements report SymPy's evaluation flag."""
+    """Statement kinds -> source text whose observable statements report SymPy's evaluation flag.
+    `variant` selects the signature form of function definitions (DEF_FORMS) and alternative spellings of the
+    other kinds (odd variants; `other` rotates through expression / annotated assignment / async def)."""
     out = []
+    alt = variant % 2
     for i, k in enumerate(kinds, start=1):
         if k == "moddoc":
             s = '"""\nProbe module\n============\n\nDescription.\n"""'
         elif k == "import":
             s = f"from harness.c19_probe import i{i}"
         elif k == "pubassign":
-            s = f"a{i} = {P}({i})" if variant == 0 else f"a{i} = b{i} = {P}({i})"
+            s = f"a{i} = {P}({i})" if alt == 0 else f"a{i} = b{i} = {P}({i})"
         elif k == "privassign":
             s = f"_a{i} = {P}({i})"
         elif k == "tupassign":
-            s = f"(t{i}, u{i}) = ({P}({i}), 0)" if variant == 0 else f"[t{i}, u{i}] = [{P}({i}), 0]"
+            s = f"(t{i}, u{i}) = ({P}({i}), 0)" if alt == 0 else f"[t{i}, u{i}] = [{P}({i}), 0]"
         elif k == "doc_dir":
-            s = (f'"""\nDoc {i}.\n\n:laws:symbol::\n\n:laws:latex::\n"""' if variant == 0
+            s = (f'"""\nDoc {i}.\n\n:laws:symbol::\n\n:laws:latex::\n"""' if alt == 0
                  else f'"""Doc {i} :laws:latex::"""')
         elif k == "doc_plain":
             s = f'"""\nDoc {i}.\n"""'
         elif k == "doc_eval":
             s = f'"""\nDoc {i}.\n\n:laws:symbol::\n\n:laws:sympy-eval::\n"""'
-        elif k == "def_doc":
-            s = f'def f{i}(x={P}({i})):\n    """Doc {i}."""\n    return x'
-        elif k == "def_nodoc":
-            s = f"def g{i}(x={P}({i})):\n    return x"
+        elif k in ("def_doc", "def_nodoc"):
+            head = DEF_FORMS[variant % N_VARIANTS].format(n=("f" if k == "def_doc" else "g") + str(i), p=f"{P}({i})")
+            doc = f'    """Doc {i}."""\n' if k == "def_doc" else ""
+            s = f"{head}\n{doc}    return x"
         elif k == "other":
-            s = f"{P}({i})" if variant == 0 else f"z{i}: object = {P}({i})"
+            form = variant % 3
+            if form == 0:
+                s = f"{P}({i})"
+            elif form == 1:
+                s = f"z{i}: object = {P}({i})"
+            else:
+                s = f'async def h{i}(x={P}({i})) -> tuple[int, int]:\n    """Doc {i}."""\n    return x'
         else:
             raise KeyError(k)
         out.append(s)
